@@ -156,7 +156,7 @@ pub fn tr_method(cx: &mut Ctx, m: &ExprMethodCall, expected: Option<&Ty>) -> R<T
                     let (fd, dt) = tr_closure(cx, arg(m, 0)?, &[], expected)?;
                     let (f, _) = tr_closure(cx, arg(m, 1)?, &[t], Some(&dt))?;
                     // `fun  => body` with no params: strip the lambda
-                    let fd_body = fd.trim_start_matches("(fun  => ").trim_end_matches(')').to_string();
+                    let fd_body = fd.strip_prefix("(fun  => ").and_then(|x| x.strip_suffix(")")).unwrap_or(&fd).to_string();
                     Ok(Tr::new(format!("(match {} with | some v_ => {} v_ | none => ({}))", recv.s, f, fd_body), dt))
                 }
                 "ok_or" => {
